@@ -71,6 +71,43 @@ func checkC20(c *Ctx) {
 		default:
 			c.ok("C20.parse", what, fmt.Sprintf("both branch on %v", ca), p.fnPos(fa))
 		}
+		// ... and their loops carry the same state from one operand to the next (the wire of the expression
+		// built so far): a chain `a and b and c` must feed the output of the first gate into the second
+		if fa != nil && fo != nil {
+			carried := func(f *ssa.Function) []string {
+				hdrs := loopHeadersOf(f)
+				isHdr := map[int]bool{}
+				for _, hs := range hdrs {
+					for _, h := range hs {
+						isHdr[h] = true
+					}
+				}
+				var out []string
+				for _, b := range f.Blocks {
+					if !isHdr[b.Index] {
+						continue
+					}
+					for _, in := range b.Instrs {
+						ph, ok := in.(*ssa.Phi)
+						if !ok {
+							break
+						}
+						if len(*ph.Referrers()) > 0 {
+							out = append(out, ph.Type().String())
+						}
+					}
+				}
+				sort.Strings(out)
+				return out
+			}
+			pa, po := carried(fa), carried(fo)
+			what2 := "(*dsl.Parser).and / or: the two operand loops carry the same values from one iteration to the next"
+			if strings.Join(pa, ",") != strings.Join(po, ",") {
+				c.bad("C20.parse", what2, fmt.Sprintf("and() carries %v, or() carries %v: one of them keeps using the first operand for every further gate", pa, po), p.fnPos(fa))
+			} else {
+				c.ok("C20.parse", what2, fmt.Sprintf("both carry %v", pa), p.fnPos(fa))
+			}
+		}
 	}
 
 	// linear secret sharing over the formula: at an and-gate one input gets a fresh random matrix and the other
@@ -207,6 +244,42 @@ func checkC20(c *Ctx) {
 			}
 		}
 	}
+	// attribute values are case-sensitive strings: the scalar of a value is derived from the value as written
+	// (policy leaves and attribute maps share this function; normalising here makes US and us one value)
+	if hf := p.Func("abe/cpabe/tkn20/internal/tkn", "", "HashStringToScalar"); hf == nil {
+		c.undecided("C20.leaf", "tkn.HashStringToScalar: the value is hashed as given", "anchor does not resolve", "")
+	} else {
+		construct := fname(hf) + ": the value is hashed as given"
+		var got []string
+		for _, b := range hf.Blocks {
+			for _, in := range b.Instrs {
+				ci, ok := in.(ssa.CallInstruction)
+				if !ok {
+					continue
+				}
+				nm := p.staticCalleeName(ci.Common())
+				args := ci.Common().Args
+				switch {
+				case strings.HasSuffix(nm, ").Write") && len(args) >= 1:
+					got = append(got, descVal(args[len(args)-1]))
+				case nm == "io.WriteString" && len(args) == 2:
+					got = append(got, descVal(args[1]))
+				}
+			}
+		}
+		switch {
+		case len(got) == 0:
+			c.undecided("C20.leaf", construct, "no write into the hash found", p.fnPos(hf))
+		case len(got) == 1 && got[0] == "param#1":
+			c.ok("C20.leaf", construct, "the hash absorbs param#1", p.fnPos(hf))
+		default:
+			c.bad("C20.leaf", construct, "the hash absorbs "+strings.Join(got, ", ")+" instead of the value itself: different spellings become one attribute value", p.fnPos(hf))
+		}
+	}
+	// a length-prefixed item is refused only when the buffer is too short for it (the writer has no cap on the
+	// item length: a cap on the reading side alone makes long plaintexts undecryptable)
+	c.rejectReasonsRule(p, "C20.cca", reasonSpec{pkg: "abe/cpabe/tkn20/internal/tkn", name: "removeLen32Prefixed", why: "buffer shorter than the prefix or than the announced item",
+		conds: []string{`len\(param#0\) < .*`, `.* > len\(param#0\)`, `.* < 4`, `.* < 0`}})
 	// encapsulation: both ciphertext components of a wire are blinded with the randomness of the wire's slot
 	{
 		f := p.Func("abe/cpabe/tkn20/internal/tkn", "", "encapsulate")
